@@ -212,7 +212,9 @@ def build_harness(pid, sources, harness_cpp, flavour='asan', extra_flags=(), lib
         return None, '\n'.join(errs)
     outdir = os.path.join(CACHE, pid)
     os.makedirs(outdir, exist_ok=True)
-    exe = os.path.join(outdir, out_name + '_' + flavour)
+    # keyed by repo root so that concurrent runs against different trees do not clobber each other
+    rkey = '' if REPO == '/repo' else '_' + hashlib.sha1(REPO.encode()).hexdigest()[:8]
+    exe = os.path.join(outdir, out_name + '_' + flavour + rkey)
     r = sh(['g++'] + FLAVOURS[flavour] + ['-pthread', '-o', exe] + [o for (o, _) in res] + list(libs))
     if r.returncode != 0:
         return None, r.stdout
@@ -340,13 +342,17 @@ def first_diff(impl_lines, model_lines, ignore_prefixes=('B ',)):
     'P' (property observable / crash) or 'M' (model-internal)."""
     a = [l for l in impl_lines if not l.startswith(ignore_prefixes)]
     b = [l for l in model_lines if not l.startswith(ignore_prefixes)]
+    first_m = None
     for k in range(max(len(a), len(b))):
         x = a[k] if k < len(a) else '<missing>'
         y = b[k] if k < len(b) else '<missing>'
         if x != y:
-            kind = 'M' if (x.startswith('M ') and y.startswith('M ')) else 'P'
-            return (k, x, y, kind)
-    return None
+            if x.startswith('M ') and y.startswith('M '):
+                # model-internal difference: remember it, but a later property-level difference wins
+                if first_m is None: first_m = (k, x, y, 'M')
+                continue
+            return (k, x, y, 'P')
+    return first_m
 
 
 def ddmin(ops, fails, max_tests=400):
